@@ -358,8 +358,20 @@ def check_fixed_point(env, final):
     # went through the run may carry state, e.g. an 'ident' restriction)
     from ddsmt import options as _options
     muts = []
-    for g, (mod, reg) in _mutators.get_all_mutators().items():
-        for cls, opt in reg.items():
+    # the class tables are asked from the theory modules again (a table
+    # handed out earlier may have been shared with - and edited by - the
+    # strategy under test), and the modules are also found by name
+    import importlib
+    import pkgutil
+    import ddsmt as _ddsmt
+    mods = [mod for g, (mod, reg) in _mutators.get_all_mutators().items()]
+    for mi in pkgutil.iter_modules(_ddsmt.__path__):
+        if mi.name.startswith('mutators_'):
+            m_ = importlib.import_module('ddsmt.' + mi.name)
+            if m_ not in mods and hasattr(m_, 'get_mutators'):
+                mods.append(m_)
+    for mod in mods:
+        for cls, opt in mod.get_mutators().items():
             if getattr(_options.args(), 'mutator_' + opt.replace('-', '_'),
                        True):
                 muts.append(getattr(mod, cls)())
